@@ -539,9 +539,25 @@ package router
 //@   ensures result == nil
 //@   ensures arrUpd(rawPkt, 10, 0, 0, at(12+al), ite(o.Info.ConsDir, 1, 0)|ite(o.Info.Peer, 2, 0), 0, uint8(o.Info.SegID>>8), uint8(o.Info.SegID), uint8(o.Info.Timestamp>>24), uint8(o.Info.Timestamp>>16), uint8(o.Info.Timestamp>>8), uint8(o.Info.Timestamp), ite(o.FirstHop.EgressRouterAlert, 1, 0)|ite(o.FirstHop.IngressRouterAlert, 2, 0), o.FirstHop.ExpTime, uint8(o.FirstHop.ConsIngress>>8), uint8(o.FirstHop.ConsIngress), uint8(o.FirstHop.ConsEgress>>8), uint8(o.FirstHop.ConsEgress), o.FirstHop.Mac[0], o.FirstHop.Mac[1], o.FirstHop.Mac[2], o.FirstHop.Mac[3], o.FirstHop.Mac[4], o.FirstHop.Mac[5], ite(o.SecondHop.EgressRouterAlert, 1, 0)|ite(o.SecondHop.IngressRouterAlert, 2, 0), o.SecondHop.ExpTime, uint8(o.SecondHop.ConsIngress>>8), uint8(o.SecondHop.ConsIngress), uint8(o.SecondHop.ConsEgress>>8), uint8(o.SecondHop.ConsEgress), o.SecondHop.Mac[0], o.SecondHop.Mac[1], o.SecondHop.Mac[2], o.SecondHop.Mac[3], o.SecondHop.Mac[4], o.SecondHop.Mac[5])
 
+//@ # what slayers.SCION.DecodeFromBytes established about the layer and the raw packet it was decoded from (C18)
+//@ macro scionDecoded(s, raw) = (len(raw) >= int(s.HdrLen)*4 && s.BaseLayer.Payload == raw[int(s.HdrLen)*4:] && s.RawDstAddr == raw[28:28+4*(1+(int(s.DstAddrType)&3))] && s.RawSrcAddr == raw[28+4*(1+(int(s.DstAddrType)&3)):28+4*(1+(int(s.DstAddrType)&3))+4*(1+(int(s.SrcAddrType)&3))] && s.DstAddrType <= 15 && s.SrcAddrType <= 15 && s.Version <= 15 && s.FlowID <= 0xfffff && raw[0] == s.Version<<4|s.TrafficClass>>4 && raw[1] == s.TrafficClass<<4|uint8(s.FlowID>>16) && raw[2] == uint8(s.FlowID>>8) && raw[3] == uint8(s.FlowID) && raw[4] == uint8(s.NextHdr) && raw[5] == s.HdrLen && raw[6] == uint8(s.PayloadLen>>8) && raw[7] == uint8(s.PayloadLen) && raw[8] == uint8(s.PathType) && raw[9] == uint8(s.DstAddrType)<<4|uint8(s.SrcAddrType) && uint64(s.DstIA) == slayers.be64(raw[12], raw[13], raw[14], raw[15], raw[16], raw[17], raw[18], raw[19]) && uint64(s.SrcIA) == slayers.be64(raw[20], raw[21], raw[22], raw[23], raw[24], raw[25], raw[26], raw[27]))
+//@ # what onehop.Path.DecodeFromBytes established (path bytes start at off)
+//@ macro ohpDecoded(o, raw, off) = (o.Info.ConsDir == (raw[off]&1 == 1) && o.Info.Peer == (raw[off]&2 == 2) && o.Info.SegID == uint16(raw[off+2])<<8|uint16(raw[off+3]) && o.Info.Timestamp == uint32(raw[off+4])<<24|uint32(raw[off+5])<<16|uint32(raw[off+6])<<8|uint32(raw[off+7]) && o.FirstHop.EgressRouterAlert == (raw[off+8]&1 == 1) && o.FirstHop.IngressRouterAlert == (raw[off+8]&2 == 2) && o.FirstHop.ExpTime == raw[off+9] && o.FirstHop.ConsIngress == uint16(raw[off+10])<<8|uint16(raw[off+11]) && o.FirstHop.ConsEgress == uint16(raw[off+12])<<8|uint16(raw[off+13]) && o.FirstHop.Mac[0] == raw[off+14] && o.FirstHop.Mac[1] == raw[off+15] && o.FirstHop.Mac[2] == raw[off+16] && o.FirstHop.Mac[3] == raw[off+17] && o.FirstHop.Mac[4] == raw[off+18] && o.FirstHop.Mac[5] == raw[off+19] && o.SecondHop.EgressRouterAlert == (raw[off+20]&1 == 1) && o.SecondHop.IngressRouterAlert == (raw[off+20]&2 == 2) && o.SecondHop.ExpTime == raw[off+21] && o.SecondHop.ConsIngress == uint16(raw[off+22])<<8|uint16(raw[off+23]) && o.SecondHop.ConsEgress == uint16(raw[off+24])<<8|uint16(raw[off+25]) && o.SecondHop.Mac[0] == raw[off+26] && o.SecondHop.Mac[1] == raw[off+27] && o.SecondHop.Mac[2] == raw[off+28] && o.SecondHop.Mac[3] == raw[off+29] && o.SecondHop.Mac[4] == raw[off+30] && o.SecondHop.Mac[5] == raw[off+31])
 //@ macro ohpOf(p) = asptr(p.scionLayer.Path, *onehop.Path)
 //@ func (*scionPacketProcessor).processOHP
-//@   props C12
+//@   props C12 C07
+//@   split int(p.scionLayer.DstAddrType)&3 : 0, 1, 2, 3
+//@   split int(p.scionLayer.SrcAddrType)&3 : 0, 1, 2, 3
+//@   requires scionDecoded(p.scionLayer, p.pkt.RawPacket)
+//@   requires typeis(p.scionLayer.Path, *onehop.Path) ==> ohpDecoded(ohpOf(p), p.pkt.RawPacket, 12+16+4*(1+(int(p.scionLayer.DstAddrType)&3))+4*(1+(int(p.scionLayer.SrcAddrType)&3)))
+//@   requires !sameArray(p.macInputBuffer, p.pkt.RawPacket)
+//@   let raw = p.pkt.RawPacket
+//@   let po = 12+16+4*(1+(int(p.scionLayer.DstAddrType)&3))+4*(1+(int(p.scionLayer.SrcAddrType)&3))
+//@   # C07: a forwarded one-hop packet keeps its length and differs from the received one only in the segment
+//@   # identifier (leaving) or the second hop field (entering) - and in reserved bits, which are written as zero
+//@   ensures p.pkt.RawPacket == old(p.pkt.RawPacket)
+//@   ensures result == pForward && p.ingressFromLink == 0 ==> forall j int :: 0 <= j && j < len(raw) && j != po+2 && j != po+3 ==> raw[j] == old(raw[j])
+//@   ensures result == pForward && p.ingressFromLink != 0 ==> forall j int :: 0 <= j && j < len(raw) && (j < po+20 || j >= po+32) ==> raw[j] == old(raw[j])
 //@   requires p.d != nil && p.pkt != nil && p.mac != nil && len(p.macInputBuffer) >= 16 && p.scionLayer.Path != nil && p.lastLayer != nil
 //@   requires typeis(p.scionLayer.Path, *onehop.Path) ==> ohpOf(p) != nil
 //@   requires p.d.interfaces[p.pkt.egress] != nil
